@@ -27,6 +27,20 @@ pub fn run_hosted(imp: Impl, text: &str, toks: Option<&[Tok]>, input: &V, state:
     }
 }
 
+/// expression values are compared by kind only: drop their table index from rendered arguments
+fn mask_expr(s: &str) -> String {
+    let mut out = String::new();
+    let mut rest = s;
+    while let Some(i) = rest.find("expr#") {
+        out.push_str(&rest[..i + 5]);
+        rest = &rest[i + 5..];
+        let n = rest.chars().take_while(|c| c.is_ascii_digit()).count();
+        rest = &rest[n..];
+    }
+    out.push_str(rest);
+    out
+}
+
 fn show_trace(t: &[String]) -> String {
     format!("[{}]", t.join(" "))
 }
@@ -63,7 +77,7 @@ pub fn judge_hosted(imp: Impl, text: &str, toks: &[Tok], reference: &Sx, input: 
             Event::Resolve(s) => Some(format!("resolve({:x})", s & 0xffff)),
             Event::ExternalApply(n, arg) => {
                 if imp == Impl::Basic {
-                    Some(format!("apply({},{})", n, arg))
+                    Some(format!("apply({},{})", n, mask_expr(arg)))
                 } else {
                     None
                 }
@@ -75,7 +89,7 @@ pub fn judge_hosted(imp: Impl, text: &str, toks: &[Tok], reference: &Sx, input: 
         .iter()
         .filter_map(|c| match c {
             Call::Resolve(s) => Some(format!("resolve({:x})", s & 0xffff)),
-            Call::Apply(n, arg) => Some(format!("apply({},{})", n, arg)),
+            Call::Apply(n, arg) => Some(format!("apply({},{})", n, mask_expr(arg))),
             Call::Defer(..) => None,
         })
         .collect();
